@@ -7,7 +7,12 @@
      rw.status  the status line that went out,
      rw.sent    the snapshot of the header map taken when the header went out (later changes to
                 rw.hdr are not seen by the client),
-     rw.body    the body chunks written so far (a sequence of tokens).
+     rw.body    the body chunks written so far (a sequence of tokens),
+     rw.aborted ServeHTTP did not return: it panicked (a configured error handler returned a nil
+                http.Handler and handler.go calls ServeHTTP on it).  net/http recovers the panic and
+                closes the connection without finishing the response (a ResponseRecorder sees the
+                panic itself): the request ends here, nothing more is written.  Deferred calls
+                (ReleaseBuffer) still run while the stack unwinds.
    A component writes chunks 1..k through its io.Writer and then returns nil or an error.
    ServeHTTPBuffered renders into a pooled bytes.Buffer (GetBuffer / deferred ReleaseBuffer) and
    touches the ResponseWriter only afterwards; ServeHTTPStreamed hands the ResponseWriter to the
@@ -20,6 +25,7 @@ EXTENDS Integers, Sequences, FiniteSets, TLC, Json
 CONSTANTS MaxK,        \* components write 0..MaxK chunks
           MaxReq,      \* requests per sequence (the pool is the only state carried over)
           Variant,     \* "asCoded" | "noReset" | "headersFirst" | "bufferInErrorPath" | "statusInErrorPath"
+                       \* | "nilFallsThrough"
           EmitEdges
 
 VARIABLES req,    \* configuration + component of the request being served
@@ -36,7 +42,7 @@ vars == <<req, pc, rw, buf, i, rerr, pool, n>>
 
 Statuses     == {0, 201, 404}                                   \* 0 = WithStatus not used
 CTypes       == {"default", "custom"}                           \* text/html; charset=utf-8 | WithContentType
-EHKinds      == {"unset", "statusbody", "bodyonly", "nothing", "headers"}
+EHKinds      == {"unset", "statusbody", "bodyonly", "nothing", "headers", "nilhandler"}
 NoHdr        == "absent"
 
 Configs == [status : Statuses, ctype : CTypes, eh : EHKinds, stream : BOOLEAN, k : 0..MaxK, fail : BOOLEAN]
@@ -44,7 +50,7 @@ Configs == [status : Statuses, ctype : CTypes, eh : EHKinds, stream : BOOLEAN, k
 -----------------------------------------------------------------------------
 (* net/http ResponseWriter *)
 FreshRW == [hdr |-> [h \in {"Content-Type", "X-Err"} |-> NoHdr], wrote |-> FALSE, status |-> 0,
-            sent |-> [h \in {"Content-Type", "X-Err"} |-> NoHdr], body |-> <<>>]
+            sent |-> [h \in {"Content-Type", "X-Err"} |-> NoHdr], body |-> <<>>, aborted |-> FALSE]
 
 HSet(w, h, v) == [w EXCEPT !.hdr[h] = v]
 \* WriteHeader: only the first one counts; the header map is frozen into the response at that point.
@@ -57,9 +63,13 @@ WriteHeader(w, code) ==
 Write(w, data) == LET w1 == WriteHeader(w, 200) IN [w1 EXCEPT !.body = @ \o data]
 \* http.Error(w, msg, 500)
 HttpError(w) == Write(WriteHeader(HSet(w, "Content-Type", "text/plain"), 500), << <<"E">> >>)
-\* what the client finally sees; a handler that returns without writing anything gets 200 and the current headers
-Final(w) == LET w1 == WriteHeader(w, 200) IN
-            [status |-> w1.status, ct |-> w1.sent["Content-Type"], xerr |-> w1.sent["X-Err"], body |-> w1.body]
+\* the handler panics: a terminal outcome, whatever has not been committed to the response never is
+Abort(w) == [w EXCEPT !.aborted = TRUE]
+\* what the client finally sees; a handler that returns without writing anything gets 200 and the current headers;
+\* a handler that panicked gets no implied header: only what had been committed (status 0 / absent = nothing)
+Final(w) == LET w1 == IF w.aborted THEN w ELSE WriteHeader(w, 200) IN
+            [status |-> w1.status, ct |-> w1.sent["Content-Type"], xerr |-> w1.sent["X-Err"], body |-> w1.body,
+             aborted |-> w1.aborted]
 
 (* The error handlers of the configuration space (what the harness installs). *)
 ServeEH(kind, w) ==
@@ -67,13 +77,16 @@ ServeEH(kind, w) ==
       [] kind = "bodyonly"   -> Write(w, << <<"H">> >>)
       [] kind = "nothing"    -> w
       [] kind = "headers"    -> Write(WriteHeader(HSet(HSet(w, "Content-Type", "text/x-error"), "X-Err", "1"), 503), << <<"H">> >>)
+      [] kind = "nilhandler" -> Abort(w)     \* ErrorHandler(r, err) = nil; nil.ServeHTTP(w, r) panics
 
 Doc(k) == [j \in 1..k |-> <<"c", j>>]
 
 -----------------------------------------------------------------------------
 (* Reference responses (DESIGN.md appendix). *)
-SuccessResponse(c) == [status |-> IF c.status = 0 THEN 200 ELSE c.status, ct |-> c.ctype, xerr |-> NoHdr, body |-> Doc(c.k)]
-\* with an error handler: Content-Type preset to the configured value, then whatever the handler writes
+SuccessResponse(c) == [status |-> IF c.status = 0 THEN 200 ELSE c.status, ct |-> c.ctype, xerr |-> NoHdr, body |-> Doc(c.k),
+                       aborted |-> FALSE]
+\* with an error handler: Content-Type preset to the configured value, then whatever the handler writes;
+\* a nil error handler result: the request is aborted with nothing committed (status 0, no header, no body)
 ErrorResponse(c) == IF c.eh = "unset" THEN Final(HttpError(FreshRW))
                     ELSE Final(ServeEH(c.eh, HSet(FreshRW, "Content-Type", c.ctype)))
 
@@ -127,9 +140,12 @@ BErrSetCT == /\ pc = "b_err_setct"
              /\ UNCHANGED <<req, buf, i, rerr, pool, n>>
              /\ Step("ErrSetContentType")
 
+\* Variant "nilFallsThrough": the error branch is skipped when the error handler's result is nil and the request
+\* continues on the success path (Content-Type, status, buffer)
 BErrHandler == /\ pc = "b_err_eh"
-               /\ rw' = ServeEH(req.eh, rw)
-               /\ pc' = "b_release"
+               /\ IF Variant = "nilFallsThrough" /\ req.eh = "nilhandler"
+                  THEN rw' = rw /\ pc' = "b_ok_setct"
+                  ELSE rw' = ServeEH(req.eh, rw) /\ pc' = "b_release"
                /\ UNCHANGED <<req, buf, i, rerr, pool, n>>
                /\ Step("ErrorHandlerServe")
 
@@ -210,7 +226,7 @@ SErrDefault == /\ pc = "s_err_default"
 
 (* --- the handler has returned: the response is final; the next request of the sequence starts --- *)
 Outcome == IF ~req.fail /\ Final(rw) = SuccessResponse(req) THEN "document"
-           ELSE IF req.fail /\ Final(rw) = ErrorResponse(req) THEN "error"
+           ELSE IF req.fail /\ Final(rw) = ErrorResponse(req) THEN (IF Final(rw).aborted THEN "aborted" ELSE "error")
            ELSE "partial"
 
 Finish == /\ pc = "done"
@@ -248,6 +264,21 @@ AllOrNothing ==
         /\ ~req.fail => Final(rw) = SuccessResponse(req)
         /\ req.fail  => Final(rw) = ErrorResponse(req)
 
+\* the same, said directly: after a failed render no chunk of the document reaches the client (hence no success
+\* status with document bytes), and a request aborted by a panic has committed no status line at all
+IsDocChunk(t) == t[1] = "c"
+NoDocumentAfterFailure ==
+    (pc \in {"done", "finished"} /\ ~req.stream /\ req.fail) =>
+        LET f == Final(rw) IN
+        /\ \A j \in 1..Len(f.body) : ~IsDocChunk(f.body[j])
+        /\ f.aborted => (f.status = 0 /\ f.body = <<>>)
+
+\* an aborted request commits nothing in buffered mode
+AbortedSendsNothing ==
+    (pc \in {"done", "finished"} /\ ~req.stream /\ rw.aborted) =>
+        /\ req.fail /\ req.eh = "nilhandler"
+        /\ ~rw.wrote /\ rw.body = <<>>
+
 \* the mechanism: the ResponseWriter is untouched until the component has returned
 UntouchedWhileRendering == (~req.stream /\ pc \in {"b_get", "b_render"}) => rw = FreshRW
 
@@ -264,6 +295,7 @@ StreamedAsDocumented ==
                 e == ErrorResponse(req)
                 f == Final(rw)
             IN  /\ f.body = Doc(req.k) \o e.body
+                /\ f.aborted = e.aborted
                 /\ IF headSent THEN f.status = SuccessResponse(req).status /\ f.ct = req.ctype /\ f.xerr = NoHdr
                    ELSE f.status = e.status /\ f.ct = e.ct /\ f.xerr = e.xerr
 
